@@ -114,6 +114,10 @@ def step (st : St) (j : Json) : St × List String :=
     let (s', r) := delete validStr s (jStr j "kid")
     ({ store := s' }, ["delete " ++ kres r (fun _ => "")])
   | "migrate" => ({ store := migrate s }, ["migrate ok"])
+  | "plant" =>
+    match wSave validStr s (jStr j "keyName") with
+    | .ok (s', k) => ({ store := s' }, [s!"plant ok key=K{k}"])
+    | .error e => (st, ["plant err:" ++ e.name])
   | "sign" => (st, [s!"sign {jStr j "how"} " ++ kres (signKey validStr s (jStr j "kid")) (fun k => s!" verifies=[K{k}]")])
   | "resolve" => (st, ["resolve " ++ kres (resolve validStr s (jStr j "kid")) (fun k => s!" key=K{k}")])
   | "exists" => (st, [s!"exists {keyExists s (jStr j "kid")}"])
